@@ -11,8 +11,19 @@ reference interpreter (savepoint = copy of the pending state).
 `second_rollback_to_fails`; the refinement is proved for programs without ROLLBACK TO / RELEASE
 (`tx_refines_spec_partial`).  Isolation between concurrent sessions is the store's MVCC (C05), not
 modelled here; the harness checks it on the engine.
+
+Second model (added for seeded change c13-a): ImmuModel/Sql/CatalogCache.lean — the engine-level catalog
+cache under schedules of several sessions (`NewTx`, DDL/DML statements, `Commit`, `Cancel`, re-open).
+"A committed DDL transaction is visible to every later transaction and is never undone by the COMMIT of a
+transaction that executed no DDL" is `cache_coherent` / `new_tx_sees_committed_catalog` /
+`commit_without_ddl_keeps_schema`; `catalog_cache_facts_match_code` pins the model to the extracted code
+fragments; the `coherence_needs_…` theorems show that each guard of the protocol is necessary (dropping it has
+a concrete failing schedule); `ro_fill_not_atomic_stale` is a FINDING about the code as it is (the read-only
+fill of `NewTx` has no version check: a DDL commit between its two critical sections leaves a stale cache).
 -/
 import ImmuModel.Sql.Proofs.TxProgMain
+import ImmuModel.Sql.Proofs.CatalogCacheMain
+import ImmuModel.Gen.C13
 
 namespace ImmuModel.Props.C13
 open ImmuModel ImmuModel.Sql ImmuModel.Sql.TxProgMainAux
@@ -184,5 +195,143 @@ example :
   intro o ho
   simp only [List.mem_cons, List.not_mem_nil, or_false] at ho
   rcases ho with rfl | rfl | rfl | rfl <;> rfl
+
+-- ================================================================ catalog cache (DDL visibility)
+
+section CatalogCache
+open ImmuModel.Sql.CatCache ImmuModel.Sql.CatCache.MainAux
+
+/-- **The model mirrors the code fragments it was written against** (regenerated from the source tree by
+`extract/c13.go` at every run; an edit of `invalidateCatalogCache`, `tryPopulateCatalogCache`, the cache step
+of `SQLTx.Commit` or the cache handling of `Engine.NewTx` breaks this theorem): invalidate = clear + version
+bump, unconditionally; populate = three guards (nil, warm cache, version moved) then store; Commit = store
+commit, `ErrNoEntriesProvided` tolerated, then invalidate iff the transaction mutated the catalog; NewTx reads
+the (catalog, version) pair, shares / clones / loads, and a read-only transaction fills an empty cache. -/
+theorem catalog_cache_facts_match_code :
+    Gen.C13.invalidateBody = ["e.cachedCatalog = nil", "e.cachedCatalogVersion.Add(1)"] ∧
+    Gen.C13.tryPopulateBody =
+      ["if catalog == nil { return }", "if e.cachedCatalog != nil { return }",
+       "if e.cachedCatalogVersion.Load() != openVersion { return }", "e.cachedCatalog = catalog"] ∧
+    Gen.C13.commitCacheStep =
+      ["sqlTx.txHeader, err = sqlTx.tx.AsyncCommit(ctx)",
+       "if err != nil && !errors.Is(err, store.ErrNoEntriesProvided) { return err }",
+       "if sqlTx.mutatedCatalog { sqlTx.engine.invalidateCatalogCache() } else { sqlTx.engine.tryPopulateCatalogCache(sqlTx.catalog, sqlTx.openCatalogVersion) }"] ∧
+    Gen.C13.newTxCacheRead =
+      ["cached := e.cachedCatalog", "openVersion := e.cachedCatalogVersion.Load()",
+       "if cached != nil && opts.ReadOnly { share }", "if cached != nil { clone } else { load }"] ∧
+    Gen.C13.newTxReadOnlyFill = ["if e.cachedCatalog == nil { e.cachedCatalog = catalog }"] ∧
+    codeCfg = { bumpAlways := true, checkVersion := true, invalidateOnDDL := true } :=
+  ⟨rfl, rfl, rfl, rfl, rfl, rfl⟩
+
+/-- **Cache coherence along every schedule**: whatever the sessions do (any number of sessions, any
+interleaving of BEGIN read-only / read-write, DDL, DML, COMMIT incl. conflicting and EMPTY ones, ROLLBACK,
+engine re-open), a cached catalog is the committed one, and every open transaction that could still publish
+its catalog holds the committed one. -/
+theorem cache_coherent (ops : List CatCache.Op) : Inv (CatCache.run codeCfg {} ops).1 :=
+  run_inv ops {} inv_init
+
+/-- **A new transaction sees every committed DDL**: after any schedule, the catalog a transaction opened
+now works with is the committed generation (cache hit or miss, read-only or read-write). -/
+theorem new_tx_sees_committed_catalog (ops : List CatCache.Op) (sid : Nat) (ro : Bool)
+    (hfree : findTx sid (CatCache.run codeCfg {} ops).1.txs = none) :
+    ∃ hit, (CatCache.step codeCfg (CatCache.run codeCfg {} ops).1 (.newTx sid ro)).2 =
+      .opened (CatCache.run codeCfg {} ops).1.committed hit := by
+  have hi := cache_coherent ops
+  generalize (CatCache.run codeCfg {} ops).1 = e at *
+  simp only [CatCache.step, hfree]
+  cases hc : e.cache with
+  | none => exact ⟨false, by simp [openTx, hc]⟩
+  | some c =>
+    have := hi.1 c hc
+    subst this
+    exact ⟨true, by simp [openTx, hc]⟩
+
+/-- **The COMMIT of a transaction that executed no DDL changes nothing others see**: the committed generation
+is unchanged, and what a new transaction would see is the same before and after — in particular a DDL
+committed earlier by another session is not undone by an older, empty transaction's COMMIT. -/
+theorem commit_without_ddl_keeps_schema (ops : List CatCache.Op) (sid : Nat) (t : Tx)
+    (ht : findTx sid (CatCache.run codeCfg {} ops).1.txs = some t) (hm : t.mutated = false) :
+    (CatCache.step codeCfg (CatCache.run codeCfg {} ops).1 (.commit sid)).1.committed =
+      (CatCache.run codeCfg {} ops).1.committed ∧
+    (CatCache.step codeCfg (CatCache.run codeCfg {} ops).1 (.commit sid)).1.fresh =
+      (CatCache.run codeCfg {} ops).1.fresh := by
+  have hi := cache_coherent ops
+  have hi' : Inv (CatCache.step codeCfg (CatCache.run codeCfg {} ops).1 (.commit sid)).1 := step_inv _ _ hi
+  generalize (CatCache.run codeCfg {} ops).1 = e at *
+  have hc : (CatCache.step codeCfg e (.commit sid)).1.committed = e.committed := by
+    simp only [CatCache.step, ht, hm]
+    split
+    · rfl
+    · split
+      · rfl
+      · simp only [Bool.false_eq_true, if_false]
+        unfold tryPopulate
+        split
+        · rfl
+        · split <;> rfl
+  exact ⟨hc, by rw [fresh_of_inv _ hi', fresh_of_inv _ hi, hc]⟩
+
+/-- committed DDL is never undone: the committed generation only grows (any configuration) -/
+theorem committed_ddl_never_undone (cfg : Cfg) (e : Eng) (ops : List CatCache.Op) :
+    e.committed ≤ (CatCache.run cfg e ops).1.committed :=
+  run_committed_mono cfg ops e
+
+/-- **The version bump must be unconditional.** With `invalidateCatalogCache` skipping the bump when the cache
+is already empty, the schedule "S1 BEGIN; S0 BEGIN; S0 DDL; S0 COMMIT; S1 COMMIT (empty)" on a cold cache ends
+with generation 0 cached while generation 1 is committed: the next transaction does not see the DDL. -/
+theorem coherence_needs_unconditional_bump :
+    let e := (CatCache.run { codeCfg with bumpAlways := false } {}
+      [.newTx 1 false, .newTx 0 false, .ddl 0, .commit 0, .commit 1]).1
+    e.committed = 1 ∧ e.cache = some 0 ∧ e.fresh = 0 := by
+  decide
+
+/-- the same schedule on the code as it is: the empty COMMIT publishes nothing -/
+theorem empty_commit_after_ddl_publishes_nothing :
+    let e := (CatCache.run codeCfg {} [.newTx 1 false, .newTx 0 false, .ddl 0, .commit 0, .commit 1]).1
+    e.committed = 1 ∧ e.cache = none ∧ e.fresh = 1 := by
+  decide
+
+/-- **The version check of `tryPopulateCatalogCache` is necessary** (same schedule). -/
+theorem coherence_needs_version_check :
+    let e := (CatCache.run { codeCfg with checkVersion := false } {}
+      [.newTx 1 false, .newTx 0 false, .ddl 0, .commit 0, .commit 1]).1
+    e.committed = 1 ∧ e.cache = some 0 := by
+  decide
+
+/-- **Invalidation on a DDL commit is necessary**: a warm cache would survive the DDL. -/
+theorem coherence_needs_invalidate_on_ddl :
+    let e := (CatCache.run { codeCfg with invalidateOnDDL := false } {}
+      [.newTx 2 true, .cancel 2, .newTx 0 false, .ddl 0, .commit 0]).1
+    e.committed = 1 ∧ e.cache = some 0 := by
+  decide
+
+/-- **Finding (race in the code as it is).** `Engine.NewTx` fills the cache for a read-only transaction in a
+SECOND critical section (`if e.cachedCatalog == nil { e.cachedCatalog = catalog }`) without comparing
+`cachedCatalogVersion` with the value read in the first one.  If another goroutine commits DDL between the two
+(after the read-only transaction loaded generation 0 from its snapshot), the stale generation 0 is cached while
+generation 1 is committed, and stays cached until the next DDL commit.  `cache_coherent` is about schedules in
+which `NewTx` is one step (statement-level interleavings, what the harness drives). -/
+theorem ro_fill_not_atomic_stale :
+    let e0 : Eng := {}
+    let (t, hit) := openTx e0 true
+    let e1 := (CatCache.run codeCfg e0 [.newTx 0 false, .ddl 0, .commit 0]).1
+    let e2 := populateRO e1 t hit
+    e2.committed = 1 ∧ e2.cache = some 0 ∧ e2.fresh = 0 := by
+  decide
+
+/-- non-vacuity of `new_tx_sees_committed_catalog` / `commit_without_ddl_keeps_schema`: after the schedule of
+the seeded change (cold cache, S1 BEGIN, S0 commits DDL, S1 commits empty, an autocommit reader warms the cache)
+session 3 is free, a new transaction sees generation 1 through a cache HIT, and S1's transaction was open and
+non-mutated when it committed. -/
+example :
+    findTx 3 (CatCache.run codeCfg {} [.newTx 1 false, .newTx 0 false, .ddl 0, .commit 0, .commit 1, .newTx 2 true, .cancel 2]).1.txs = none ∧
+    (CatCache.step codeCfg (CatCache.run codeCfg {} [.newTx 1 false, .newTx 0 false, .ddl 0, .commit 0, .commit 1, .newTx 2 true, .cancel 2]).1
+      (.newTx 3 false)).2 = .opened 1 true ∧
+    (findTx 1 (CatCache.run codeCfg {} [.newTx 1 false, .newTx 0 false, .ddl 0, .commit 0]).1.txs).map (·.mutated) = some false ∧
+    (CatCache.run codeCfg {} [.newTx 1 false, .dml 1, .newTx 0 false, .ddl 0, .commit 0, .commit 1]).2 =
+      [.opened 0 false, .ok, .opened 0 false, .ok, .ok, .conflict] := by
+  decide
+
+end CatalogCache
 
 end ImmuModel.Props.C13
